@@ -6,8 +6,8 @@
    Tie: ./check C04 compares the extracted model with the real Executor
    (model/RunC04.v vs harness/rt/src/bin/c04.rs).  Statements only. *)
 From Compio.Model Require Import Base Task Queue.
-From Compio.Gen Require Consts.
-From Compio.Thm Require Import TaskThm TaskInvThm TaskSafeThm QueueThm.
+From Compio.Gen Require Consts Frag.
+From Compio.Thm Require Import TaskThm TaskInvThm TaskSafeThm QueueThm FragTaskThm.
 Local Open Scope nat_scope.
 
 (* ---- layout tie of the state word to state.rs --------------------------- *)
@@ -47,6 +47,50 @@ Theorem C04_count_above_flags : forall a b c d e f g k,
   = w_count k (flag_word a b c d e f g).
 Proof. exact count_layout. Qed.
 Print Assumptions C04_count_above_flags.
+
+(* ---- source tie of the state word's methods (translated from state.rs on every run:
+        gen/Frag.v is the output of tools/rs2v.py on compio-executor/src/task/state.rs) ----
+
+   Every read-modify-write method of `State`, as the source has it now, applied
+   to the word the code stores for a model word x (any flags, any reference count
+   that fits the 57 bits above the flags) returns the stored word as its Snapshot
+   and leaves the encoding of the model's record operation; every predicate of
+   `Snapshot` reads the model's field. *)
+
+Theorem C04_state_methods_are_model_ops : forall x, (N.of_nat (count x) < 2 ^ 57)%N ->
+  Frag.st_start_scheduling (encode x) = (encode (start_scheduling x), encode x)
+  /\ Frag.st_finish_scheduling (encode x) = (encode (finish_scheduling x), tt)
+  /\ Frag.st_unschedule (encode x) = (encode (unschedule x), encode x)
+  /\ Frag.st_set_cancelled (encode x) = (encode (set_cancelled x), encode x)
+  /\ Frag.st_finish_running (encode x) = (encode (finish_running x), encode x)
+  /\ Frag.st_start_setting_waker (encode x) = (encode (start_setting_waker x), encode x)
+  /\ (forall b, Frag.st_finish_setting_waker b (encode x) = (encode (finish_setting_waker b x), encode x))
+  /\ Frag.st_set_dropped (encode x) = (encode (set_dropped x), encode x)
+  /\ (forall b, Frag.st_set_has_result b (encode x) = (encode (set_has_result b x), tt))
+  /\ (forall b, Frag.st_set_has_waker b (encode x) = (encode (set_has_waker b x), tt))
+  /\ Frag.st_inc (encode x) = (encode (inc_w x), encode x)
+  /\ ((1 <= count x)%nat -> Frag.st_dec (encode x) = (encode (dec_w nat_arith x), encode x))
+  /\ (encode x < 2 ^ 64)%N.
+Proof. exact state_methods_tie. Qed.
+Print Assumptions C04_state_methods_are_model_ops.
+
+Theorem C04_snapshot_predicates_are_model_fields : forall x,
+  Frag.snap_is_scheduled (encode x) = scheduled x
+  /\ Frag.snap_is_scheduling (encode x) = scheduling x
+  /\ Frag.snap_is_completed (encode x) = completed x
+  /\ Frag.snap_is_cancelled (encode x) = cancelled x
+  /\ Frag.snap_is_setting_waker (encode x) = negb (nsw x)
+  /\ Frag.snap_has_waker (encode x) = has_waker x
+  /\ Frag.snap_has_result (encode x) = has_result x
+  /\ Frag.snap_count (encode x) = N.of_nat (count x).
+Proof. exact tie_snapshot. Qed.
+Print Assumptions C04_snapshot_predicates_are_model_fields.
+
+Example C04_state_tie_nonvacuous :
+  (N.of_nat (count (init_word 2)) < 2 ^ 57)%N
+  /\ Frag.st_start_scheduling (encode (init_word 2)) = (encode (start_scheduling (init_word 2)), encode (init_word 2))
+  /\ fst (Frag.st_start_scheduling (encode (init_word 2))) <> encode (init_word 2).
+Proof. vm_compute. repeat split; congruence. Qed.
 
 (* ---- the invariant holds in every reachable state ------------------------ *)
 
